@@ -25,7 +25,16 @@ CACHE_PAIRS = [
     ("Tins::ICMPv6", "options_", "options_size_"),
     ("Tins::Dot11", "options_", "options_size_"),
     ("Tins::PPPoE", "tags_", "tags_size_"),
+    ("Tins::LLC", "information_fields_", "information_field_length_"),
 ]
+
+
+# counters that may be narrower than 32 bits because the protocol cannot represent more: (class, counter) -> (setter of the
+# wire length field the serialiser feeds with the counter, its width, reason)
+WIRE_LIMITED = {
+    ("Tins::PPPoE", "tags_size_"): ("payload_length", 16, "PPPoE's payload_length is a 16-bit wire field: more than 65535 bytes of tags "
+                                                          "cannot be represented, the counter is exactly as wide as the field it fills"),
+}
 
 
 # cached counters and the container whose serialised size they hold (pairing itself is rule R2)
@@ -35,6 +44,7 @@ COUNTERS = {
     "Tins::ICMPv6": {"options_size_": "options_"},
     "Tins::Dot11": {"options_size_": "options_"},
     "Tins::PPPoE": {"tags_size_": "tags_"},
+    "Tins::LLC": {"information_field_length_": "information_fields_"},
 }
 # lower bounds of counters (initial value of every constructor; checked below)
 COUNTER_BASE = {"Tins::DHCP": {"size_": 4}}
@@ -45,7 +55,8 @@ ACCESSOR_COUNTS = {
 # classes whose size fields are caches related to other state by code the form language cannot follow
 R1_UNDECIDED = {
     "Tins::LLC": "control_field_length_ / information_field_length_ are caches maintained by type() and add_xid_information(); "
-                 "their relation to type_ and information_fields_ is not a form (the control-field switch is C03.R4's instance)",
+                 "their relation to type_ and information_fields_ is not ONE form: decided piecewise instead - the information "
+                 "fields by the cache-pair rule R2 (LLC pair), the control field per Format enumerator by C03.R8",
 }
 # serialisers that write their trailer through raw pointers (bounded by trailer_size(), rule R3 lists them)
 RAW_TRAILER = {"Tins::ICMP", "Tins::ICMPv6"}
@@ -321,6 +332,39 @@ def r2(db, rep, rule):
             continue
         cp = cachepair.ClassPair(db, rec, cont, cnt).analyse()
         short = rec.split("::")[-1]
+        # the counter can count what the container can hold: as wide as the uint32_t header_size() it feeds.  A narrower
+        # counter wraps once enough elements were added through the public API, header_size() then announces fewer bytes
+        # than the serialiser writes and serialize() throws.
+        cf = [f_ for f_ in r["fields"] if f_["name"] == cnt][0]
+        ct = facts.tyi(r, cf.get("t")) or {}
+        wbits = cf.get("bitw") or ct.get("w") or 0
+        site_c = "%s:%s" % (r.get("file"), cf.get("line") or r.get("line"))
+        need = 32
+        lim = WIRE_LIMITED.get((rec, cnt))
+        if lim is not None:
+            # protocol limit: the counter is what the serialiser stores in a wire length field of that width (confirmed here:
+            # a setter of that name exists, takes that many bits, and write_serialization hands it the counter)
+            setter, bits_, why_ = lim
+            ok_lim = False
+            for g_ in db.functions.values():
+                if g_.get("rec") == rec and g_["qual"].endswith("::write_serialization") and g_.get("body"):
+                    for x_ in facts.fn_nodes(g_):
+                        if x_["k"] == "CXXMemberCallExpr" and x_.get("cname") == setter and len(x_["c"]) == 2 and \
+                                facts.strip_all(x_["c"][1]).get("member") == cnt:
+                            h_ = db.fn(x_.get("callee"))
+                            pt_ = facts.tyi(h_, h_["params"][0]["t"]) if h_ and h_.get("params") else {}
+                            ok_lim = (pt_ or {}).get("w") == bits_
+            if ok_lim:
+                need = bits_
+            else:
+                rep.analysis_broken("%s::%s: the wire length field `%s` (%d bits) that justified a narrow counter was not found" % (short, cnt, setter, bits_))
+        if ct.get("k") not in ("int",) or wbits < need:
+            rep.violation(rule, "%s::%s:counter-width" % (short, cnt), site_c,
+                          "the cached size `%s` is a %d-bit field but counts the serialised bytes of `%s`, which the public API lets grow without "
+                          "limit: beyond %d bytes it wraps, header_size() under-reports and serialize() throws serialization_error"
+                          % (cnt, wbits, cont, (1 << wbits) - 1 if wbits else 0))
+        else:
+            rep.ok(rule, "%s::%s:counter-width" % (short, cnt), site_c, "%d-bit counter (%s)" % (wbits, "header_size() returns 32 bits" if need == 32 else lim[2]))
         for verdict, key, site, text in cp.results:
             k = "%s::%s" % (short, key)
             getattr(rep, verdict)(rule, k, site, text)
@@ -400,6 +444,14 @@ def writer_form(db, rec, cont):
     return None
 
 
+def _iter_call(e):
+    """the begin()/end() member call behind the iterator temporaries clang wraps it in"""
+    e = facts.strip_all(e)
+    while e["k"] in ("CXXConstructExpr", "MaterializeTemporaryExpr", "CXXBindTemporaryExpr", "ImplicitCastExpr") and len(e.get("c", [])) == 1:
+        e = facts.strip_all(e["c"][0])
+    return e if e["k"] == "CXXMemberCallExpr" else None
+
+
 def stream_bytes(db, f, body, svar, is_elem):
     """Sum of the byte counts of the stream writes in `body` (straight-line);
     None when a write's size is outside the language."""
@@ -427,6 +479,17 @@ def stream_bytes(db, f, body, svar, is_elem):
                 F.const += tt["size"]
             else:
                 return None
+            n_w += 1
+        elif cname == "write" and len(a) == 2 and \
+                _iter_call(a[0]) is not None and _iter_call(a[0]).get("cname") in ("begin", "cbegin") and \
+                _iter_call(a[1]) is not None and _iter_call(a[1]).get("cname") in ("end", "cend") and \
+                facts.expr_str(cfg.receiver(_iter_call(a[0]))) == facts.expr_str(cfg.receiver(_iter_call(a[1]))):
+            # write(X.begin(), X.end()) of a byte container X: X.size() bytes
+            rx = cfg.receiver(_iter_call(a[0]))
+            if rx is not None and is_elem(rx):
+                F.add_atom("size(elem)", 1)
+            else:
+                F.add_atom("expr:" + facts.expr_str(rx) + ".size()", 1)
             n_w += 1
         elif cname == "write" and len(a) == 2:
             lf = cachepair.linear_form(f, a[1], is_elem)
